@@ -346,6 +346,21 @@ def apply_op(v, op, operand):
         return v if mut else r
     if name == 'conv':
         return AnsiString(v) if op['to'] == 'S' else AnsiStr(v)
+    if name == 'q_format':
+        how = op.get('how', 0) % 3
+        if how == 0:
+            return format(v, op['spec'])
+        if how == 1:
+            return v.to_str(op['spec'], op.get('opt', True), op.get('rs', False), op.get('re', True))
+        return ('{:' + op['spec'] + '}').format(v) if '{' not in op['spec'] and '}' not in op['spec'] else format(v, op['spec'])
+    if name == 'q_misc':
+        out = [str(v), repr(v), len(v), v.base_str, v.is_formatting_valid(), v.is_formatting_parsable(), v.is_optimizable(),
+               v.find_settings('red'), v.find_settings(['bold', 'red'], 1, None, True), v.settings_at(0), v.encode(),
+               [x.base_str for x in v], 'a' in v, v == v, v == 'a', v.count('a'), v.find('a'), v.endswith('a'), v.isupper()]
+        w = operand(op['x']) if 'x' in op else 'a'
+        out.append(w in v)
+        out.append(v == w)
+        return tuple(str(x) for x in out)
     raise HarnessError('bad op %r' % (op,))
 
 
